@@ -516,6 +516,15 @@ fn derive_where_internal(mut item: DeriveInput) -> Result<TokenStream> {
 									_ => return Err(Error::option_syntax(name_value.value.span())),
 								};
 
+								// Generic arguments can't be part of an attribute path.
+								if path
+									.segments
+									.iter()
+									.any(|segment| !segment.arguments.is_none())
+								{
+									return Err(Error::option_syntax(name_value.value.span()));
+								}
+
 								if path == util::path_from_strs(&[DERIVE_WHERE]) {
 									return Err(Error::path_unnecessary(
 										path.span(),
